@@ -364,3 +364,37 @@ pub fn fam_stale_then_silence(b: &Base, out: &mut Vec<CaseSpec>) {
         }
     }
 }
+
+/// all triples of faults (drop / dup / reorder) for transfers with few datagrams
+pub fn fam_triples(b: &Base, protect_handshake: bool, max_slots: usize, out: &mut Vec<CaseSpec>) {
+    let mut slots: Vec<(Dir, usize, &str)> = Vec::new();
+    for (dir, cnt, dn) in [(Dir::W2P, b.n_w2p, "w2p"), (Dir::P2W, b.n_p2w, "p2w")] {
+        for idx in first_idx(b, dir, protect_handshake)..cnt + 1 {
+            slots.push((dir, idx, dn));
+        }
+    }
+    if slots.len() > max_slots {
+        return;
+    }
+    let acts = &ACTS[..3];
+    for i in 0..slots.len() {
+        for j in i + 1..slots.len() {
+            for k in j + 1..slots.len() {
+                for (a1, n1) in acts {
+                    for (a2, n2) in acts {
+                        for (a3, n3) in acts {
+                            let (d1, i1, dn1) = slots[i];
+                            let (d2, i2, dn2) = slots[j];
+                            let (d3, i3, dn3) = slots[k];
+                            out.push(with(b, "triple", format!("{dn1}#{i1}:{n1}+{dn2}#{i2}:{n2}+{dn3}#{i3}:{n3}"), |s| {
+                                s.rules.push(Rule::Idx { dir: d1, idx: i1, act: *a1 });
+                                s.rules.push(Rule::Idx { dir: d2, idx: i2, act: *a2 });
+                                s.rules.push(Rule::Idx { dir: d3, idx: i3, act: *a3 });
+                            }));
+                        }
+                    }
+                }
+            }
+        }
+    }
+}
